@@ -61,12 +61,17 @@ class Scte35Events(RepeatingEventBase):
     def create_binary_signal(self, event_id: int, presentation_time: int) -> BinarySignal:
         pts = presentation_time * MPEG_TIMEBASE // self.timescale
         pts &= 0x1FFFFFFFF  # PTS field is 33 bits
-        duration = self.duration * MPEG_TIMEBASE // self.timescale
+        # break_duration is a 33 bit field
+        duration = min(self.duration * MPEG_TIMEBASE // self.timescale, 0x1FFFFFFFF)
         # auto_return is True for the OUT and False for the IN
         auto_return = (event_id & 1) == 0
         if self.count > 0:
             avail_num = 1 + (event_id // 2)
             avails_expected = 1 + (self.count // 2)
+            if avails_expected > 255:
+                # avail_num and avails_expected are 8 bit fields, zero
+                # means that they are not used
+                avails_expected = avail_num = 0
         else:
             avails_expected = avail_num = 0
 
